@@ -108,7 +108,18 @@ def c19(ctx):
         ctx.gotest("refclient", "^TestVerifC19", race=False, timeout=1800)
 
 
+def c17(ctx):
+    ctx.gotest("refserver", "^TestVerifC17", race=False, timeout=1800)
+    ctx.gotest("refclient", "^TestVerifC17", race=False, timeout=1800)
+    ctx.gotest("internal", "^TestVerifC17", race=False, timeout=900)
+
+
 SPECS = {
+    "C17": {"fn": c17, "level": "exploration",
+            "technique": "runtime monitoring on the wire: plain HTTP/1.1 and h2c client against the real reference server, plain capturing server against the real reference client, random raw-payload definitions; oracle = independent encoder/decoder of the definition",
+            "text": "Random RawHTTPResponse definitions are attached to unary, client-stream, server-stream and bidi requests sent to the real reference server over HTTP/1.1 and h2c; the observed status, headers, trailers and body bytes must equal an independent encoding of the definition and contain nothing the handler would have produced. Random RawHTTPRequest definitions are sent by the real reference client to a capturing server. WriteRawMessageContents/WriteRawStreamContents are checked to be invertible by independent decoders.",
+            "note": "Infrastructure headers (CORS, Vary, Trailer, transfer coding, Content-Length, sniffed Content-Type) are whitelisted; 1xx/204/304 statuses are not generated (HTTP forbids a body).",
+            "assumptions": ["net/http and x/net/http2 as observer of the wire"]},
     "C19": {"fn": c19, "level": "exploration",
             "technique": "runtime monitoring: invariant oracle on the real expandRequestData (size == limit+delta, only the padding field differs, else error) over enumerated offsets around every varint boundary; crafted third-party peers exchange messages of exact serialized size limit-1/limit/limit+1 with the real reference server and client",
             "text": "expandRequestData is run for all five message types, several contents and every offset in windows around zero and around each length-varint growth point; the result must be exactly limit+delta bytes with nothing but request_data changed, or an error - never a panic. Sharpness is observed on the wire: messages of exactly limit-1, limit and limit+1 serialized bytes under every protocol and compression against the real reference server (and reference client for responses).",
